@@ -406,7 +406,8 @@ var originCalls = map[string]bool{
 	fnGetSession: true, fnGetCookie: true,
 	fnCurrentUser: true, fnCurrentUserP: true, fnLoadCurrentUser: true, fnLoadCurrentUserP: true, fnCurrentUserLower: true,
 	fnCurrentUserID: true, fnCurrentUserIDP: true, fnLoadCurrentUserID: true,
-	"(*net/http.Request).FormValue": true, "time.Now": true, fnLocalizef: true,
+	"(*net/http.Request).FormValue": true, "(*net/http.Request).PostFormValue": true, "(*net/http.Request).Cookie": true, "(*net/http.Request).Referer": true, "(*net/http.Request).UserAgent": true,
+	"(net/http.Header).Get": true, "(net/url.Values).Get": true, "time.Now": true, fnLocalizef: true,
 }
 
 // Slice is the slicer configured for this repository:
